@@ -314,9 +314,12 @@ def _create_reader(numbering, content_types, relationships, styles, docx_file, f
         font = element.attributes.get("w:font")
         char = element.attributes.get("w:char")
 
-        unicode_code_point = dingbats.get((font, int(char, 16)))
+        if char is None:
+            unicode_code_point = None
+        else:
+            unicode_code_point = dingbats.get((font, int(char, 16)))
 
-        if unicode_code_point is None and re.match("^F0..", char):
+        if unicode_code_point is None and char is not None and re.match("^F0..", char):
             unicode_code_point = dingbats.get((font, int(char[2:], 16)))
 
         if unicode_code_point is None:
